@@ -342,6 +342,9 @@ def transpiration(
             if Crop.ETadj == 1:
                 # Adjust stomatal stress threshold for et0 on current day
                 p_up_sto = Crop.p_up[1] + (0.04 * (5 - et0)) * (np.log10(10 - 9 * Crop.p_up[1]))
+            else:
+                # No adjustment of the stomatal stress threshold for et0
+                p_up_sto = Crop.p_up[1]
 
             # Determine critical water content at which stomatal closure will
             # occur in compartment
